@@ -1,4 +1,4 @@
-/* C16 — fetch path rules select exactly the paths their matchers describe.
+/* C16 - fetch path rules select exactly the paths their matchers describe.
  * Long-session mode: one daemon, one owner with 12 states and 3 methods over adversarial paths; every rule of the
  * enumerated space is sent as get and as fetch (+unfetch) and compared with a reference matcher. */
 #include <ctype.h>
